@@ -319,7 +319,27 @@ class WindowAccumulator(WindowBase):
                        note='acc.state == state(concat(acc.dfs)): the invariant that makes every later step correct'),
                 Clause('C07.value_is_the_aggregation_over_the_window', ['C07', 'C11'], when='return',
                        text='result[1] == res_of(cat(D2))',
-                       note='the emitted value is the aggregation over exactly the rows the window policy kept')]
+                       note='the emitted value is the aggregation over exactly the rows the window policy kept'),
+                Clause('C12.new_state_is_a_fresh_object_and_the_old_one_is_untouched', ['C12', 'C07'], when='return',
+                       fn=self.state_untouched(),
+                       note='the state emitted with with_state=True / passed as start= must not be rewritten by later batches')]
+
+    def state_untouched(self):
+        def fn(self_, I, o, fr):
+            acc = self.pre_args.get('acc')
+            if not isinstance(acc, sym.VObj):
+                return None                      # first batch: there is no state argument
+            res = o.value
+            new = res.items[0] if isinstance(res, sym.VTuple) else None
+            if isinstance(new, sym.VObj) and new.loc == acc.loc:
+                return z3.BoolVal(False)         # the very dict that was passed in is handed back (and was updated in place)
+            pre = self.pre_state.heap[acc.loc].fields
+            post = o.state.heap[acc.loc].fields
+            if set(pre) != set(post):
+                return z3.BoolVal(False)
+            from .core_common import values_equal_across
+            return z3.And([values_equal_across(I, self.pre_state, pre[k], o.state, post[k]) for k in pre])
+        return fn
 
 
 class WindowAccumulatorFirst(WindowAccumulator):
